@@ -225,7 +225,8 @@ class Sql:
                 raise_py('KeyboardInterrupt')
         m = getattr(self, 'x_' + kind)
         rows = m(it, T, ps, params)
-        st.effect('SQL', stmt=ps, params=params, in_txn=st.world.get('txn.active', False))
+        st.effect('SQL', stmt=ps, params=params, in_txn=st.world.get('txn.active', False),
+                  nrows=(len(rows) if isinstance(rows, list) else None))
         return Obj('Cursor', {'rows': rows})
 
     # ---- transactions
